@@ -250,6 +250,11 @@ func (s *Sim) Epoch() uint64 { return s.epoch }
 //go:norace
 func (s *Sim) NewObjID() int { s.objs++; return s.objs }
 
+// StopFaults ends fault injection for the rest of the run ("once faults stop").
+//
+//go:norace
+func (s *Sim) StopFaults() { s.cfg.TimeFaults = false }
+
 // Trace returns the decisions taken so far.
 func (s *Sim) Trace() []Decision { return s.trace }
 
